@@ -705,5 +705,5 @@ func lockKey(n string) string {
 	n = reSiteOcc.ReplaceAllString(n, "#site$1.$2:")
 	n = reRequiresAt.ReplaceAllString(n, "#requires@$1:requires")
 	n = reGoframe.ReplaceAllString(n, "#goframe:")
-	return n
+	return strings.TrimSpace(n)
 }
